@@ -37,6 +37,9 @@ VALUESETS = {
     "near-marker": [0.0, 1e-9, -9999.0, -9999.05, 5e-324, 2.0],  # legitimate values close to a MissingValue of 0 / -9999
 }
 INTSETS = {"plain": [0, 1, 2, 7, 3, 100], "neg": [-2, 1, 0, -5, 3, 8], "fuzzy": [-1, 0, 1, 0, 1, -1]}
+# signed integer variables holding the MINIMUM of their type (the usual no-data value of 16-bit rasters, often not declared as _FillValue):
+# its magnitude does not exist in the type, so a range check on magnitudes wraps around
+TYPEMIN = {"i2": {"typemin16": [-32768, 0, 1, -1, 1, 0]}, "i4": {"typemin32": [-2147483648, 0, 1, -1, 1, 0]}, "i8": {"typemin64": [-2 ** 63, 0, 1, -1, 1, 0]}}
 DTYPES = [None, "Float", "Integer", "Positive Float", "Positive Integer", "Fuzzy"]
 
 
@@ -56,6 +59,10 @@ def cases(tier):
             for vs in (VALUESETS if vt == "f8" else INTSETS):
                 for fill in (True, False):
                     yield ("read", gi, vt, vs, fill, tier)
+    for gi in range(len(GRIDS)):
+        for vt in ("i2", "i4", "i8"):
+            for vs in TYPEMIN[vt]:
+                yield ("read", gi, vt, vs, False, tier)
     yield ("novar",)
     yield ("templates",)
     yield ("chain",)
@@ -150,7 +157,7 @@ def _run_read(case):
     _, gi, vt, vs, fill, tier = case
     grid = GRIDS[gi]
     n = grid[0] * grid[1]
-    vals = (VALUESETS if vt == "f8" else INTSETS)[vs][:n]
+    vals = (VALUESETS if vt == "f8" else (TYPEMIN[vt] if vs in TYPEMIN.get(vt, ()) else INTSETS))[vs][:n]
     work = snapshot.scratch_dir("c18_")
     viols, outcomes = [], {}
     evals = judged = 0
